@@ -55,8 +55,11 @@ struct cast_channel_fn {
     template <typename SrcChannel, typename DstChannel>
     void operator()(const SrcChannel& src, DstChannel& dst) {
         using dst_value_t = typename channel_traits<DstChannel>::value_type;
+        // packed and bit-aligned channels are integral as well, but their value type is a class that
+        // std::numeric_limits does not know: they were truncated (a constant 63 sampled as 62)
+        using dst_base_t = typename base_channel_type<dst_value_t>::type;
         dst = cast<dst_value_t>(src, std::integral_constant<bool,
-            std::is_floating_point<SrcChannel>::value && std::numeric_limits<dst_value_t>::is_integer>());
+            std::is_floating_point<SrcChannel>::value && std::is_integral<dst_base_t>::value>());
     }
 private:
     template <typename DstValue, typename SrcChannel>
